@@ -44,13 +44,24 @@ def input_for(mname, model, which=0):
 
 
 OPS = ["compile", "compile_vec", "compile_noclear", "run", "run_noclear", "jacobian", "yaml", "update_var", "clear", "clear_frontend",
-       "yaml_update_run_clear", "compile_inputs_noclear", "compile_decorator"]
+       "yaml_update_run_clear", "compile_inputs_noclear", "compile_decorator", "update_var_shared"]
+UNCLEARED = ("compile_noclear", "run_noclear", "compile_inputs_noclear")
+CLEARING = ("compile", "compile_vec", "run", "jacobian", "yaml", "update_var", "update_var_shared", "clear", "yaml_update_run_clear",
+            "compile_decorator")
 
 
 def negate(f):
     def g(*a, **k):
         return -1.0 * np.array(f(*a, **k), dtype=float)
     return g
+
+
+NODE_CACHE, OPS_CACHE = {}, {}
+
+
+def build_shared(mname, model):
+    """Circuits of one process are built from the SAME OperatorTemplate / NodeTemplate objects (per model name)."""
+    return mdl.build_templates(model, node_cache=NODE_CACHE.setdefault(mname, {}), ops_cache=OPS_CACHE.setdefault(mname, {}))
 
 
 def do_op(op, mname, model, keep):
@@ -72,8 +83,8 @@ def do_op(op, mname, model, keep):
     elif op == "yaml":
         tpl = CircuitTemplate.from_yaml(mdl.write_yaml(model, path=f"y_{mname[0]}/m.yaml"))
         tpl.get_run_func("vf", vectorize=True, clear=True, in_place=False, **kw)
-    elif op == "update_var":
-        tpl = mdl.build_templates(model)
+    elif op in ("update_var", "update_var_shared"):
+        tpl = build_shared(mname, model) if op == "update_var_shared" else mdl.build_templates(model)
         first = mdl.state_vars(model)[0]
         tpl.update_var(node_vars={first.rsplit("/", 1)[0] + "/tau": 9.0})
         tpl.get_run_func("vf", vectorize=True, clear=True, in_place=False, **kw)
@@ -123,6 +134,8 @@ def case_fn(c):
         if route == "inputs":
             ipath, arr = input_for(c["target"], target, which=0)
             inputs = {ipath: arr}
+        if route == "shared":
+            tpl = build_shared(c["target"], target)
         comp = oracle.compile_model(target, vectorize=c["vec"], file_name="shared_name", tpl=tpl, inputs=inputs)
     except Exception as exn:
         return dict(status="violated", fails=[dict(clause="get_run_func of the target model after the history succeeds",
@@ -163,13 +176,17 @@ def features_of(history, target):
 
     def opnames(m):
         return {"A": {"op"}, "B": {"op"}, "C": {"op"}, "D": {"zz"}, "E": {"ee"}}[m[0]]
-    # an uncleared earlier compilation/run of a model that shares an operator NAME with a later model (or with the target)
-    later = [m for _, m in history] + [target]
+    # an uncleared compilation/run of a model, followed — WITHOUT any operation in between that clears the process-global caches —
+    # by a model (or the target) that shares an operator NAME with it
     stale = False
-    for i, (o, m) in enumerate(history):
-        if o in ("compile_noclear", "run_noclear", "compile_inputs_noclear"):
-            if any(opnames(m) & opnames(m2) for m2 in later[i + 1:]):
-                stale = True
+    pending = set()
+    for o, m in list(history) + [("target", target)]:
+        if opnames(m) & pending:
+            stale = True
+        if o in UNCLEARED:
+            pending |= opnames(m)
+        elif o in CLEARING:
+            pending = set()
     return dict(history=[list(h) for h in history], target=target, uncleared=[list(x) for x in noclear], stale_shared_operator_name=stale)
 
 
@@ -196,6 +213,14 @@ def families(tier, seed):
                         target=m, vec=False, seed=seed, route="yaml"))
         out.append(dict(tag=f"T-decorator-{m[0]}", features=features_of([("compile_decorator", m)], m), history=[("compile_decorator", m)],
                         target=m, vec=False, seed=seed))
+        # another circuit built from the SAME template objects after update_var on the first one
+        out.append(dict(tag=f"T-shared-templates-{m[0]}", features=features_of([("update_var_shared", m)], m), history=[("update_var_shared", m)],
+                        target=m, vec=False, seed=seed, route="shared"))
+    # a model compiled to file F / function G and left uncleared, another model compiled to the same F and G, everything cleared,
+    # then the first model again (unrelated operator names, so the listed cache finding does not apply)
+    for a, b in (("D-unrelated", "A"), ("E-other-ops-same-input-name", "D-unrelated")):
+        h = [("compile_noclear", a), ("compile", b), ("clear", b)]
+        out.append(dict(tag=f"T-same-file-{a[0]}-{b[0]}", features=features_of(h, a), history=h, target=a, vec=False, seed=seed))
     for m, t in (("E-other-ops-same-input-name", "A"), ("A", "E-other-ops-same-input-name"), ("D-unrelated", "A")):
         h = [("compile_inputs_noclear", m)]
         out.append(dict(tag=f"T-inputs-{m[0]}-{t[0]}", features=features_of(h, t), history=h, target=t, vec=False, seed=seed, route="inputs"))
